@@ -37,6 +37,7 @@ type RunLine struct {
 	Hooks     int               `json:"hooks"`
 	Faults    map[string]int    `json:"faults,omitempty"`
 	Probes    map[string]int    `json:"probes,omitempty"`
+	Known     map[string]int    `json:"known,omitempty"`
 	Violation string            `json:"violation,omitempty"`
 	Prop      string            `json:"prop,omitempty"`
 	Class     string            `json:"class,omitempty"`
@@ -112,6 +113,17 @@ func TestWorker(t *testing.T) {
 			jobs = append(jobs, Job{ID: run, Seed: seed, Run: run, Full: os.Getenv("DST_VERBOSE") != ""})
 		}
 	}
+	var known []sim.KnownFinding
+	if kf := os.Getenv("DST_KNOWN"); kf != "" {
+		if b, err := os.ReadFile(kf); err == nil {
+			var f struct {
+				Findings []sim.KnownFinding `json:"findings"`
+			}
+			if json.Unmarshal(b, &f) == nil {
+				known = f.Findings
+			}
+		}
+	}
 	sample := envInt("DST_SAMPLE", 0)
 	for _, j := range jobs {
 		// announce the job first: if the process dies the runner knows which one was in flight
@@ -123,11 +135,11 @@ func TestWorker(t *testing.T) {
 		} else {
 			tape = sim.NewSeedTape(j.Seed, uint64(j.Run))
 		}
-		res := sim.RunScenario(t, mk(), tape, j.Seed*1000003+uint64(j.Run))
+		res := sim.RunScenario(t, mk(), tape, j.Seed*1000003+uint64(j.Run), known)
 		w := res.World
 		l := RunLine{Run: j.Run, Job: j.ID, Steps: res.Steps, Incs: res.Incs, Sim: res.SimSeconds, LogHash: res.LogHash,
 			StateHash: w.AbstractState(), Writes: w.CountWrites(), Hooks: len(w.Hooks), Faults: w.FaultsFired, Probes: w.Probes,
-			Cfg: w.Cfg, TapeLen: len(res.Tape)}
+			Cfg: w.Cfg, TapeLen: len(res.Tape), Known: w.KnownSeen}
 		if res.Violation != nil {
 			l.Violation = res.Violation.String()
 			l.Prop = res.Violation.Prop
